@@ -405,7 +405,7 @@ func searchC09() {
 	}
 	history(0, rev)
 	history(1, rev)
-	rounds := 3
+	rounds := 2
 	if tier == "thorough" {
 		rounds = 12
 	}
@@ -417,9 +417,9 @@ func searchC09() {
 
 	// ---- schedules
 	goroutines := 4 + 4*(shardI%4) // 4, 8, 12, 16 depending on the shard
-	reps := 16 / goroutines
+	perG := 1400 / goroutines      // calls per goroutine (concurrent calls nearly always miss the one-slot cache: ~5 ms each)
 	if tier == "thorough" {
-		reps *= 4
+		perG = 12000 / goroutines
 	}
 	type miss struct {
 		op  int
@@ -427,9 +427,10 @@ func searchC09() {
 	}
 	perms := make([][]int, goroutines)
 	for g := range perms {
-		for r := 0; r < reps; r++ {
+		for len(perms[g]) < perG {
 			perms[g] = append(perms[g], rng.Perm(n)...)
 		}
+		perms[g] = perms[g][:perG]
 	}
 	// shared objects: built now, first read concurrently; their reference digests come from separate equal objects
 	mkL := func() *calendar.Lunar { return calendar.NewSolar(2024, 2, 10, 23, 30, 0).GetLunar() }
@@ -493,7 +494,7 @@ func searchC09() {
 	}
 	done := make(chan struct{})
 	go func() { wg.Wait(); close(done) }()
-	total := int64(goroutines*reps*n + readers*readIters)
+	total := int64(goroutines*perG + readers*readIters)
 	last, lastChange := int64(-1), time.Now()
 	blocked := false
 wait:
@@ -526,7 +527,7 @@ wait:
 				ck.report("schedule-dependent-shared-read", what, "digest differs from the single-threaded digest of an equal object", "equal")
 			}
 		}
-		nConcurrent = goroutines * reps * n
+		nConcurrent = goroutines * perG
 		nSharedReads = readers * readIters
 		ck.count += nConcurrent + nSharedReads
 		lockCheck("after the concurrent phase")
